@@ -97,9 +97,34 @@ class C09(Prop):
                     break
         ctx['extra_evals'] += n
         ctx['notes'].append(f'groups on which another task calls cancel_remaining() (and may abandon the call) around the join: {n} runs')
+        # "any number of members": groups of every size up to 150 (and a few beyond a thousand) on a plain event loop, ended in each way
+        ns = 0
+        sizes = list(range(1, 151, 1 if ctx['tier'] != 'quick' else 7)) + [31, 32, 33, 63, 64, 65, 127, 128, 129, 1025, 1100]
+        for nm in sizes:
+            for how in ('body_raises', 'clean_exit', 'member_fails', 'body_cancel_remaining'):
+                o = big_group(nm, how)
+                ns += 1
+                bad = None
+                if o.get('escaped') not in (None, 'KeyError' if how == 'body_raises' else None):
+                    bad = f"{o['escaped']} escaped the group"
+                elif o['still_running'] or o['never_cancelled_running']:
+                    bad = f"{o['still_running']} members still running when the block was left"
+                elif not o['joined']:
+                    bad = 'the group was not marked joined'
+                elif o['late_add'] == 'added':
+                    bad = 'a task could be added after the group was left'
+                if bad:
+                    out.append(Failure({'kind': 'big_group', 'members': nm, 'ended_by': how}, o, f'a group of {nm} members ended by {how}: {bad}'))
+                    break
+            if len(out) >= 3:
+                break
+        ctx['extra_evals'] += ns
+        ctx['notes'].append(f'groups of 1..150 (and >1024) members on a plain event loop, ended by a raising body / clean exit / failing member / cancel_remaining in the body: {ns} runs')
         return out
 
     def classify(self, case, obs, clause):
+        if isinstance(case, dict) and case.get('kind') == 'big_group':
+            return None
         je = obs['join_end'] or {}
         if 'joining task was cancelled while' in clause:
             return 'F12'
@@ -124,6 +149,68 @@ class C09(Prop):
             h.append('joiner_cancelled' if je['joiner_cancelled'] else 'joiner_returned')
         h.append('labels~%d' % (10 * (len(obs['trace']) // 10)))
         return h
+
+
+def big_group(nm, how):
+    """a group of nm members (every ninth a daemon, some slow to wind up) left through the context manager"""
+    import asyncio
+    from aiorpcx import TaskGroup
+    info = {}
+
+    async def member(i):
+        try:
+            if how == 'member_fails' and i == 0:
+                await asyncio.sleep(0.01)
+                raise ValueError('member failed')
+            await asyncio.sleep(0.01 if how == 'clean_exit' else 3600)
+        except asyncio.CancelledError:
+            if i % 5 == 3:
+                await asyncio.sleep(0.002)       # slow to wind up
+            raise
+
+    async def main():
+        g = TaskGroup()
+        tasks = []
+        try:
+            async with g:
+                for i in range(nm):
+                    tasks.append(await g.spawn(member(i), daemon=(i % 9 == 8)))
+                await asyncio.sleep(0.001)
+                if how == 'body_raises':
+                    raise KeyError('body')
+                if how == 'body_cancel_remaining':
+                    await g.cancel_remaining()
+                if how == 'member_fails':
+                    await asyncio.sleep(0.05)
+            info['escaped'] = None
+        except BaseException as e:
+            info['escaped'] = type(e).__name__
+        info['still_running'] = sum(1 for t in tasks if not t.done())
+        info['never_cancelled_running'] = sum(1 for t in tasks if not t.done() and not t.cancelling())
+        info['joined'] = g.joined
+        try:
+            t = await g.spawn(asyncio.sleep(0))
+            info['late_add'] = 'added'
+            t.cancel()
+        except RuntimeError:
+            info['late_add'] = 'refused'
+        rest = [t for t in asyncio.all_tasks() if t is not asyncio.current_task()]
+        for t in rest:
+            t.cancel()
+        await asyncio.gather(*rest, return_exceptions=True)
+    loop = asyncio.new_event_loop()
+    try:
+        loop.run_until_complete(asyncio.wait_for(main(), 20))
+    except Exception as e:
+        info['harness'] = repr(e)
+        info.setdefault('escaped', type(e).__name__)
+        info.setdefault('still_running', -1)
+        info.setdefault('never_cancelled_running', -1)
+        info.setdefault('joined', None)
+        info.setdefault('late_add', None)
+    finally:
+        loop.close()
+    return info
 
 
 PROP = C09()
